@@ -1,0 +1,7 @@
+//go:build !verif
+
+package pool
+
+// vfOnRelease is the verification hook of ReleaseBuf. Without the build tag
+// "verif" it does nothing and is inlined away.
+func vfOnRelease(Buffer) bool { return false }
